@@ -20,17 +20,52 @@ from . import c09
 ID = "C21"
 
 
+def gen_ragged_fused(rng, tier):
+    """Structured scenario: a creation op with many small blocks and ONE odd block, fused (optimize-graph on)
+    with elementwise steps and a size-sensitive reduction's chunk stage -- the fused records path bakes block
+    shapes into the subgraph after probing a few block positions."""
+    nd = rng.choice([1, 1, 2])
+    shape, chunks = [], []
+    for _ in range(nd):
+        nb = rng.randint(4, 7)
+        base = rng.choice([1, 2])
+        row = [base] * nb
+        row[rng.randrange(nb)] = 3 - base
+        chunks.append(row)
+        shape.append(sum(row))
+    steps = [{"op": "creation", "in": [], "args": {"kind": rng.choice(["ones", "full", "ones"]), "shape": shape, "chunks": chunks,
+                                                  "dtype": rng.choice(["i8", "f8"]), "fill": rng.choice([2, 3, 5])}, "out": "v0"}]
+    cur = "v0"
+    for _ in range(rng.randint(0, 2)):
+        steps.append({"op": "unary", "in": [cur], "args": rng.choice([{"f": "addc", "c": 1}, {"f": "mulc", "c": 2}, {"f": "neg"}, {"f": "square"}]),
+                      "out": f"v{len(steps)}"})
+        cur = steps[-1]["out"]
+    mid = cur
+    steps.append({"op": "reduction", "in": [cur], "args": {"f": rng.choice(["sum", "nansum", "mean", "prod", "sum"]),
+                                                          "axis": rng.choice([None, 0, nd - 1])}, "out": f"v{len(steps)}"})
+    cur = steps[-1]["out"]
+    group = [cur] + ([mid] if rng.random() < 0.4 else [])
+    extras = [{"kind": "persist", "var": cur, "entry": "method"}] if rng.random() < 0.3 else []
+    return {"recipe": {"sources": {}, "generators": {}, "steps": steps}, "group": group, "extras": extras, "resubmit": None,
+            "foreign_seen": rng.random() < 0.2, "preempt_seed": rng.getrandbits(32) if rng.random() < 0.3 else None,
+            "optimize_graph": rng.random() < 0.85, "exec_seeds": [rng.getrandbits(32) for _ in range(2)], "max_perms": 24}
+
+
 def gen(rng, tier):
+    if rng.random() < 0.06:
+        return gen_ragged_fused(rng, tier)
     ctx = G.Ctx(rng)
     names = sorted(G.OPS)
     ctx.enabled = G.swarm_subset(rng, names, 0.75, always=("from_array", "binary", "rechunk", "reduction"))
     ctx.weights = {"random": 0.6, "map_blocks": 1.2, "diag_ops": 2.0}
+    ragged_bias = False
     if rng.random() < 0.3:
         # creation ops with ragged explicit chunks fused with elementwise consumers (the fused records path
         # derives block shapes by probing positions of each axis)
-        ctx.weights.update({"creation": 4.0, "unary": 5.0, "binary": 4.0})
+        ctx.weights.update({"creation": 4.0, "unary": 5.0, "binary": 4.0, "reduction": 5.0})
         ctx.p_ragged_creation = 0.7
-        ctx.enabled |= {"creation", "unary"}
+        ctx.enabled |= {"creation", "unary", "reduction"}
+        ragged_bias = True
     ctx.enabled.add("diag_ops")
     ctx.p_masked = rng.choice([0.0, 0.05, 0.2])
     ctx.p_simsource = rng.choice([0.0, 0.3])
@@ -70,7 +105,7 @@ def gen(rng, tier):
             # (a real lock -- from_array(lock=True) -- would really block a pre-empted holder's rival)
             "preempt_seed": rng.getrandbits(32) if (rng.random() < 0.5 and not any(
                 s_["op"] == "from_array" and s_["args"].get("lock") is True for s_ in recipe["steps"])) else None,
-            "optimize_graph": rng.random() < 0.85, "exec_seeds": [rng.getrandbits(32) for _ in range(2 if tier == "quick" else 4)],
+            "optimize_graph": rng.random() < (0.5 if ragged_bias else 0.85), "exec_seeds": [rng.getrandbits(32) for _ in range(2 if tier == "quick" else 4)],
             "max_perms": 24}
 
 
